@@ -150,7 +150,15 @@ def _drivers():
         a5.cell_to_boundary(c, {"segments": 2, "closed_ring": False})
         a5.cell_to_lonlat(c)
 
-    return {"proj": drv_proj, "cell": drv_cell}
+    from a5.projections.authalic import AuthalicProjection
+    auth = AuthalicProjection()
+
+    def drv_auth(p):
+        phi = math.radians(p[1])
+        auth.inverse(auth.forward(phi))
+        to_lonlat(from_lonlat(p))
+
+    return {"proj": drv_proj, "cell": drv_cell, "auth": drv_auth}
 
 
 def _point(va, vb, s):
